@@ -103,6 +103,21 @@ func (c *chooser) Choose(step int, enabled []int, sites []int) int {
 	return k
 }
 
+// Pick decides a choice that is not "who runs next" (which case a select looks at first); part of the schedule.
+func (c *chooser) Pick(n int) int {
+	k := 0
+	if c.p.Strategy == "replay" {
+		if c.d < len(c.p.Choices) {
+			k = ((c.p.Choices[c.d] % n) + n) % n
+		}
+	} else {
+		k = c.r.Intn(n)
+	}
+	c.d++
+	c.Taken = append(c.Taken, k)
+	return k
+}
+
 // Result of one scheduled execution.
 type Result struct {
 	Steps, Switches, Decisions int
